@@ -401,6 +401,15 @@ func c16CheckWith(c *core.Ctx, n ast.Vertex, w core.Witness, longLived bool) (li
 			c.Violation(p.Sig, "dumper panicked ("+o.String()+"): "+p.Msg, w.With("options", o.String()))
 			continue
 		}
+		if longLived {
+			// the rendering of a tree does not depend on what the dumper rendered before: byte for byte the text of a new dumper
+			if fresh, fp := dumpTree(n, o); fp == nil && fresh != out {
+				c.Violation("dump|long-lived-dumper-differs-from-new-dumper", "a Dumper that has dumped other trees before renders this tree differently from a new Dumper ("+o.String()+"): "+obs.FirstDiff(fresh, out), w.With("options", o.String()))
+				delete(c16Long, o)
+				continue
+			}
+			c.Add("long_lived_dumps_equal_to_new_dumper", 1)
+		}
 		src := "package p\n\nvar _ = []interface{}{\n" + out + "}\n"
 		fset := gotoken.NewFileSet()
 		f, err := goparser.ParseFile(fset, "dump.go", src, 0)
